@@ -2,7 +2,8 @@ import PV.Model.Hash.Dispatch
 import PV.Spec.Hash
 import PV.Driver.Util
 /-! driver for the crypto-hash family `hashmd` (C11: MD5, SHA-1, SHA-2).  Protocol of
-    `harness/hash.c`: `new ALG | upd HEX | updz N | str | dig [BUFLEN] | len | reset`.
+    `harness/hash.c`: `use K | new ALG | newt N | free | upd HEX | updoK HEX | updz N | updn N | str | dig [BUFLEN] | dign CAP |
+    dignl | len | type | reset | nullh | par T:R:HEX` (four handle slots, each with its own object).
     The answer is the streaming model's; when the one-shot specification `H` of the bytes updated
     since creation / the last reset before the first read differs, ` SPECDIFF <spec answer>` is
     appended.  The specification column needs the whole message in memory: it is not evaluated
@@ -33,8 +34,33 @@ def St.specAdd (s : St) (n : Nat) (bytes : Unit → ByteArray) : St :=
 
 def specDigest (s : St) (t : HashType) : Option (List UInt8) := s.msg.map fun m => (Spec.ofType t).H m
 
-def step (s : St) (toks : List String) : IO (St × Bool) := do
+/-- `T:R:HEX` of the `par` op -/
+def parArgs (a : String) : Option (Nat × Nat × List UInt8) :=
+  match a.splitOn ":" with
+  | [t, r, hex] => do
+    let t ← t.toNat?
+    let r ← r.toNat?
+    let b ← bytesOfHex hex
+    if 1 ≤ t ∧ t ≤ 16 then some (t, r, b) else none
+  | _ => none
+
+def updoOps : List String := ["updo1", "updo2", "updo3", "updo4", "updo5", "updo6", "updo7"]
+
+/-- one op on one handle slot -/
+def slotStep (s : St) (toks : List String) : IO (St × Bool) := do
+  -- the harness reads at most two tokens (`sscanf ("%15s %s")`); `updoK` is `upd` with unaligned input
+  let toks := match toks.take 2 with
+    | [op, a] => if updoOps.contains op then ["upd", a] else [op, a]
+    | t => t
   match toks, s.h with
+  | ["newt", c], _ =>
+    match c.toInt? with
+    | none => IO.println "bad-op"; return ({ }, false)
+    | some c =>
+      if !typeAccepted c then IO.println "fail"; return ({ }, false)
+      else match HashType.ofCode c with
+        | some t => IO.println "ok"; return ({ h := some ⟨t, PHash.new t⟩ }, false)
+        | none => IO.println "bad-op"; return ({ }, false)    -- a type of the other family
   | ["new", a], _ =>
     match algOfName a with
     | some t => IO.println "ok"; return ({ h := some ⟨t, PHash.new t⟩ }, false)
@@ -72,11 +98,57 @@ def step (s : St) (toks : List String) : IO (St × Bool) := do
       IO.println (ans ++ (match sp with | some x => if x = ans then "" else " SPECDIFF " ++ x | none => ""))
       return ({ s with h := some ⟨t, h'⟩, read := s.read || r.isSome }, false)
   | ["len"], some ⟨_, h⟩ => IO.println (toString h.getLength); return (s, false)
+  | ["type"], some ⟨_, h⟩ => IO.println (toString h.getType); return (s, false)
+  | ["free"], some _ => IO.println "ok"; return ({ }, false)
+  | ["updn", n], some ⟨t, h⟩ =>
+    match n.toNat? with
+    | some n => IO.println "ok"; return ({ s with h := some ⟨t, h.updateNull n⟩ }, false)
+    | none => IO.println "bad-op"; return (s, false)
+  | ["dign", c], some ⟨t, h⟩ =>
+    match c.toNat? with
+    | some cap =>
+      let (h', n) := h.getDigestNullBuf cap
+      IO.println (toString n ++ " ")
+      return ({ s with h := some ⟨t, h'⟩ }, false)
+    | none => IO.println "bad-op"; return (s, false)
+  | ["dignl"], some ⟨t, h⟩ => IO.println "ok"; return ({ s with h := some ⟨t, h.getDigestNullLen⟩ }, false)
+  | ["par", a], some ⟨t, _⟩ =>
+    match parArgs a with
+    | none => IO.println "bad-op"; return (s, false)
+    | some (_, r, l) =>
+      -- every thread owns its object: each one's answer is that of a fresh object updated `r` times
+      let b := l.toByteArray
+      let h := (List.range r).foldl (fun (h : PHash t) _ => h.update b) (PHash.new t)
+      let str := h.getString.2
+      let msg := (List.range r).foldl (fun (m : ByteArray) _ => m ++ b) ByteArray.empty
+      let sp := if msg.size ≤ specMax then some (hexOf ((Spec.ofType t).H msg)) else none
+      IO.println (str ++ (match sp with | some x => if x = str then "" else " SPECDIFF " ++ x | none => ""))
+      return (s, false)
   | ["reset"], some ⟨t, h⟩ => IO.println "ok"; return ({ h := some ⟨t, h.reset⟩ }, false)
   | _, _ => IO.println "bad-op"; return (s, false)
 
+/-- the four handle slots of the harness and the selected one -/
+structure Slots where
+  slots : Array St := #[{}, {}, {}, {}]
+  cur : Nat := 0
+
+def step (z : Slots) (toks : List String) : IO (Slots × Bool) := do
+  match toks.take 2 with
+  | ["use", k] =>
+    match k.toNat? with
+    | some k => if k < 4 ∧ toks.length = 2 then IO.println "ok"; return ({ z with cur := k }, false)
+                else IO.println "bad-op"; return (z, false)
+    | none => IO.println "bad-op"; return (z, false)
+  | ["nullh"] =>
+    let (s, n, l, t) := nullAnswers
+    IO.println (s.getD "null" ++ " " ++ toString n ++ " " ++ toString l ++ " " ++ toString t)
+    return (z, false)
+  | _ =>
+    let (s', stop) ← slotStep (z.slots.getD z.cur {}) toks
+    return ({ z with slots := z.slots.setIfInBounds z.cur s' }, stop)
+
 def run : IO Unit := do
-  let _ ← forEachLine (← IO.getStdin) St {} step
+  let _ ← forEachLine (← IO.getStdin) Slots {} step
   return ()
 
 end PV.Driver.HashMD
